@@ -1,7 +1,7 @@
 #!/bin/bash
 # usage: seedtest.sh <seed dir> [prop ...] : applies the seed patch to /repo, runs the given checks
 # (default: all claimed in MANIFEST), reverts. Prints which checks fire.
-d="$1"; shift
+d="$(realpath "$1")"; shift
 cd /verif
 props="$@"
 [ -z "$props" ] && props=$(python3 -c "import json;print(' '.join(c['property_id'] for c in json.load(open('MANIFEST.json'))['checks']))")
